@@ -137,11 +137,11 @@ def _join_groups(tier_params):
 
 def _jp(kind):
     if kind == "unite":
-        return dict(quick=dict(JS=[1, 2, 3], K=[3], T=[2]), thorough=dict(JS=[1, 2, 3, 4], K=[4], T=[2]))
-    return dict(quick=dict(JS=[1, 2, 3], M=[4], T=[2]), thorough=dict(JS=[1, 2, 3, 4], M=[6], T=[3]))
+        return dict(quick=dict(JS=[1, 2, 3], K=[3], T=[2]), thorough=dict(JS=[1, 2, 3, 4], K=[3], T=[2]))
+    return dict(quick=dict(JS=[1, 2, 3], M=[4], T=[2]), thorough=dict(JS=[1, 2, 3, 4], M=[5], T=[2]))
 
 _JOIN_BOUNDS = dict(quick="join: JoinSize 1..3, 4 elements, <=2 ticks interleaved adversarially at every select, copy and no-copy, timed and untimed; unite: JoinSize 1..3, 3 input slices with lengths 0..JoinSize+1",
-                    thorough="join: JoinSize 1..4, 6 elements, <=3 ticks; unite: JoinSize 1..4, 4 input slices")
+                    thorough="join: JoinSize 1..4, 5 elements, <=2 ticks; unite: JoinSize 1..4, 3 input slices (plus JoinSize 5..8 with 2 slices and one JoinSize-5000 boundary instance)")
 
 for _pid, _txt in [
     ("C03", "output slices concatenate to the input stream; size rules"),
@@ -356,9 +356,9 @@ PROPS["C10"] = dict(
             dict(mod="v1", pkg="join", overlay="harness/v1/join", harness="^VerifC10_(interval|wiring|step)$", params=_INACC),
             # runs through the real New with an adversarial ticker (coarse clock): the LOGICAL flush rule - a tick taken at least Timeout after the
             # oldest buffered element was accepted is followed by a delivery before anything else happens (representation independent)
-            dict(mod="v2", pkg="join", overlay="harness/v2/join", harness="^VerifC03_join_timed$", params=dict(quick=dict(JS=[2, 3], M=[4], T=[2]), thorough=dict(JS=[2, 3, 4], M=[5], T=[3]))),
-            dict(mod="v2", pkg="join/unite", overlay="harness/v2/unite", harness="^VerifC03_unite_timed$", params=dict(quick=dict(JS=[2, 3], K=[3], T=[2]), thorough=dict(JS=[2, 3, 4], K=[4], T=[2]))),
-            dict(mod="v1", pkg="join", overlay="harness/v1/join", harness="^VerifC03_v1join_normal$", params=dict(quick=dict(JS=[2, 3], M=[4], T=[2]), thorough=dict(JS=[2, 3, 4], M=[5], T=[3]))),
+            dict(mod="v2", pkg="join", overlay="harness/v2/join", harness="^VerifC03_join_timed$", params=dict(quick=dict(JS=[2, 3], M=[4], T=[2]), thorough=dict(JS=[2, 3, 4], M=[5], T=[2]))),
+            dict(mod="v2", pkg="join/unite", overlay="harness/v2/unite", harness="^VerifC03_unite_timed$", params=dict(quick=dict(JS=[2, 3], K=[3], T=[2]), thorough=dict(JS=[2, 3, 4], K=[3], T=[2]))),
+            dict(mod="v1", pkg="join", overlay="harness/v1/join", harness="^VerifC03_v1join_normal$", params=dict(quick=dict(JS=[2, 3], M=[4], T=[2]), thorough=dict(JS=[2, 3, 4], M=[5], T=[2]))),
             # bounded runs with a periodic ticker, timed arrivals and a latency parameter lambda (c = 3)
             dict(mod="v2", pkg="join", overlay="harness/v2/join", harness="^VerifC10_run$", timeout=dict(quick=60000, thorough=180000),
                  params=dict(quick=dict(M=[1], inacc=[100, 50], c=[3], ticks=[3]), thorough=dict(M=[1, 2], inacc=[100, 50], c=[3], ticks=[3]))),
